@@ -15,13 +15,25 @@
        ParseSyms(syms, StdUnits) is a defect of the *model* (key "spec:std"), lines outside the
        model's arithmetic are listed in `ood` and judged by the concrete comparison only.
                                                       -> "same accept/reject and value as the standard parser, plus day unit"
+   "hist" line  one call of a HISTORY (machine "hist" of Duration.tla): h (history id), k (1.. index of
+                the call in its history), call [o, cell, style, oor, j, syms], ret [panic, syms, res]
+                (fmt: the returned text, parse/lit: the parser's value) and held: what the caller
+                observes on EVERY text it still retains right after the call (syms: the text now,
+                back: the library parser on it now).
+       The monitor keeps the retained texts of the current history in hh (the texts as they were
+       returned; k = 1 starts a new history).  Accepted iff the call itself is right (fmt as
+       above; parse of a retained text = HParseRes of the text that was returned; lit =
+       ParseSyms of the string) and every retained text still is the text that was returned and
+       still parses back to its duration.  Keys: "hist:<style>:changed:after-<call>",
+       "hist:<style>:roundtrip:after-<call>", "hist:<style>:parse-retained".
+                                                      -> "a returned text is a value"
    At the end the monitor also reports which cells of the model's cell space (Cells x Styles)
    were not present in the log (coverage of the specification's enumeration).                  *)
 EXTENDS Duration, SequencesExt
 
 CONSTANT TraceFile
 
-VARIABLES i, bad, ood
+VARIABLES i, bad, ood, hh
 
 TLog == ndJsonDeserialize(TraceFile)
 
@@ -49,24 +61,81 @@ ParseKey(e) ==
        ELSE IF e.lib # el THEN "parse:value:" \o DayTag(e.syms)
        ELSE ""
 
-Key(e) == IF e.op = "fmt" THEN FmtKey(e) ELSE IF e.op = "parse" THEN ParseKey(e) ELSE ""
-Expect(e) == IF e.op = "fmt" THEN ToJson([value |-> CellRes(e.cell), text |-> Format(e.cell, e.style),
+\* ---- histories
+LibKey(syms, res, panic, el) ==
+    IF panic THEN "parse:panic:" \o DayTag(syms)
+    ELSE IF res.ok /\ ~el.ok THEN "parse:accept:" \o DayTag(syms)
+    ELSE IF ~res.ok /\ el.ok THEN "parse:reject:" \o DayTag(syms)
+    ELSE IF res # el THEN "parse:value:" \o DayTag(syms)
+    ELSE ""
+
+HBefore(e) == IF e.k = 1 THEN <<>> ELSE hh          \* retained texts before the call of line e
+
+HCallKey(H, e) ==
+    LET c == e.call IN
+    CASE c.o = "fmt" ->
+            IF c.oor # ~InRange(c.cell) THEN "spec:range"
+            ELSE IF c.oor THEN ""
+            ELSE IF e.ret.panic THEN "fmt:" \o c.style \o ":panic:need" \o ToString(Need(c.cell, c.style))
+            ELSE IF ~HFmtOK(c.cell, e.ret.syms) THEN "fmt:" \o c.style \o ":text"
+            ELSE ""
+      [] c.o = "parse" ->
+            IF c.j \notin 1..Len(H) THEN "spec:hist"
+            ELSE LET exp == HParseRes(H[c.j].text) IN
+                 IF exp.ood THEN ""
+                 ELSE IF e.ret.panic \/ e.ret.res # exp THEN "hist:" \o H[c.j].style \o ":parse-retained"
+                 ELSE ""
+      [] c.o = "lit" ->
+            LET el == HParseRes(c.syms) IN IF el.ood THEN "spec:hist" ELSE LibKey(c.syms, e.ret.res, e.ret.panic, el)
+      [] c.o = "drop" -> IF c.j \notin 1..Len(H) THEN "spec:hist" ELSE ""
+      [] OTHER -> "spec:hist"
+
+HAfter(H, e) ==
+    LET c == e.call IN
+    IF c.o = "fmt" /\ (c.oor \/ e.ret.panic) THEN H
+    ELSE IF c.o \in {"parse", "drop"} /\ c.j \notin 1..Len(H) THEN H
+    ELSE HApply(H, c.o, c.j, c.cell, c.style, e.ret.syms)
+
+\* what the caller sees on its retained texts right after the call
+HSnapKey(H, H2, e) ==
+    IF Len(e.held) # Len(H2) THEN "spec:hist"
+    ELSE LET wrong == {j \in 1..Len(H2) : e.held[j].syms # H2[j].text \/ e.held[j].back # HParseRes(H2[j].text)} IN
+         IF wrong = {} THEN ""
+         ELSE LET j == CHOOSE x \in wrong : \A y \in wrong : x <= y IN
+              IF e.held[j].syms # H2[j].text THEN "hist:" \o H2[j].style \o ":changed:after-" \o e.call.o
+              ELSE IF Len(H2) > Len(H) /\ j = Len(H2) THEN "fmt:" \o H2[j].style \o ":roundtrip"
+              ELSE "hist:" \o H2[j].style \o ":roundtrip:after-" \o e.call.o
+
+HistKey(e) == LET H  == HBefore(e)
+                  k1 == HCallKey(H, e)
+              IN IF k1 # "" THEN k1 ELSE HSnapKey(H, HAfter(H, e), e)
+HistExpect(e) == LET H2 == HAfter(HBefore(e), e) IN
+    ToJson([retained |-> [j \in 1..Len(H2) |-> [text |-> H2[j].text, value |-> CellRes(H2[j].cell)]],
+            call |-> IF e.call.o = "fmt" /\ ~e.call.oor THEN ToJson([value |-> CellRes(e.call.cell), text |-> Format(e.call.cell, e.call.style)])
+                     ELSE IF e.call.o = "lit" THEN ToJson(HParseRes(e.call.syms))
+                     ELSE IF e.call.o = "parse" /\ e.call.j \in 1..Len(HBefore(e)) THEN ToJson(HParseRes(HBefore(e)[e.call.j].text))
+                     ELSE ""])
+
+Key(e) == IF e.op = "fmt" THEN FmtKey(e) ELSE IF e.op = "parse" THEN ParseKey(e) ELSE IF e.op = "hist" THEN HistKey(e) ELSE ""
+Expect(e) == IF e.op = "hist" THEN HistExpect(e) ELSE
+             IF e.op = "fmt" THEN ToJson([value |-> CellRes(e.cell), text |-> Format(e.cell, e.style),
                                           need |-> Need(e.cell, e.style)])
              ELSE ToJson([lib |-> ParseSyms(e.syms, LibUnits), std |-> ParseSyms(e.syms, StdUnits)])
 
-TInit == st = "trace" /\ i = 1 /\ bad = {} /\ ood = {}
+TInit == st = "trace" /\ i = 1 /\ bad = {} /\ ood = {} /\ hh = <<>>
 
 TNext ==
     /\ i <= Len(TLog)
     /\ i' = i + 1
     /\ UNCHANGED st
+    /\ hh' = IF TLog[i].op = "hist" THEN HAfter(HBefore(TLog[i]), TLog[i]) ELSE hh
     /\ LET e == TLog[i]
            k == Key(e)
        IN IF k = "" THEN UNCHANGED <<bad, ood>>
           ELSE IF k = "ood" THEN ood' = ood \cup {i} /\ UNCHANGED bad
           ELSE bad' = bad \cup {[line |-> i, key |-> k, expected |-> Expect(e)]} /\ UNCHANGED ood
 
-TSpec == TInit /\ [][TNext]_<<st, i, bad, ood>>
+TSpec == TInit /\ [][TNext]_<<st, i, bad, ood, hh>>
 
 \* cells of the specification's cell space that the log does not contain
 SeenCells == {<<TLog[j].cell, TLog[j].style>> : j \in {x \in 1..Len(TLog) : TLog[x].op = "fmt"}}
